@@ -156,7 +156,7 @@ def canary(run):
         L = 70
         args = [Buf('key', 32, sym=True, writable=False), Buf('nonce', nb, sym=True, writable=False), Sc('pos', 64, pos), Buf('data', L, sym=True), Sc('len', 64, L)]
         res, ex = entry.run(mod, 'h_c01_' + alias, args)
-        r = [x for x in res if x.status == 'ret' and T.cval(x.ret) == 0][0]
+        r = [x for x in res if x.status == 'ret' and any(code == 0 for code, _ in split_ret(x, (0, 1, 2)))][0]
         bad = T.bxor(T.var('data', 8 * L), T.extract(keystream(alias, 2, Bz, rot=(16, 12, 8, 9)), 40, 8 * L))
         vw = [('key', 256), ('nonce', 8 * nb), ('B', 58), ('data', 8 * L), ('cpu', 63)]
         asg = check.concrete_differs([(r.mem(r.named['data']), bad)], [], vw, run.rng, tries=8)
@@ -167,7 +167,7 @@ def body(run, a):
     assert spec.selftest()
     kat_through_encoding(run)
     if run.tier == 'quick':
-        grid = [(0, 0), (0, 1), (1, 63), (63, 65), (0, 256), (5, 300), (63, 257)]
+        grid = [(0, 0), (0, 1), (1, 63), (63, 65), (0, 256), (5, 300), (63, 257), (0, 330), (61, 600)]     # the last two: blocks AFTER a wide (4-block) refill
         configs = ['release-std', 'release-nosimd']
         cfg_alias = [(c, al) for c in configs for al in ALIASES]
     else:
@@ -178,9 +178,9 @@ def body(run, a):
     tasks = []
     for c, al in cfg_alias:
         for o, L in grid:
-            if c != 'release-std' and run.tier == 'quick' and (o, L) not in [(1, 63), (63, 65), (5, 300)]:
+            if c != 'release-std' and run.tier == 'quick' and (o, L) not in [(1, 63), (63, 65), (5, 300), (0, 330)]:
                 continue
-            if c != 'release-std' and run.tier == 'thorough' and not (o in (0, 1, 37, 63) and L in (0, 1, 27, 63, 64, 65, 256, 300, 600)):
+            if c != 'release-std' and run.tier == 'thorough' and not (o in (0, 1, 37, 63) and L in (0, 1, 27, 63, 64, 65, 256, 300, 330, 600)):
                 continue
             tasks.append((c, al, o, L))
     for c in configs:
